@@ -134,6 +134,30 @@ def herestring_case(rng):
             "carrier": "herestring:" + ctx, "rlist": ["<<< " + word], "rlist2": None, "noclobber": False}
 
 
+def heredoc_pair_case(rng):
+    """Two here-documents introduced on ONE line, any mix of `<<` and `<<-`: each body is stripped of leading tabs according to
+    its own operator, and arrives on its own descriptor."""
+    d1, d2 = rng.random() < 0.5, rng.random() < 0.5
+    b1 = [rng.choice(["\ta1", "a1", "\t\ta2", " sp", "\t$x", "x\ty"]) for _ in range(rng.randint(0, 3))]
+    b2 = [rng.choice(["\tb1", "b1", "\t\tb2", "\tB", "B x"]) for _ in range(rng.randint(0, 3))]
+    b1 = [l for l in b1 if l.lstrip("\t") != "A"]
+    b2 = [l for l in b2 if not (l == "B" or (d2 and l.lstrip("\t") == "B"))]
+    op1, op2 = ("<<-" if d1 else "<<"), ("<<-" if d2 else "<<")
+    form = rng.choice(["fd3", "twocmd", "pipe"])
+    docs = "".join(l + "\n" for l in b1) + ("\tA\n" if d1 and rng.random() < 0.5 else "A\n") + "".join(l + "\n" for l in b2) + "B\n"
+    if form == "fd3":
+        cmd = "{ cat; echo --; cat <&3; } > hd %s'A' 3%s'B'\n%s" % (op1, op2, docs)
+    elif form == "twocmd":
+        cmd = "cat > hd %s'A'; { echo --; cat; } >> hd %s'B'\n%s" % (op1, op2, docs)
+    else:
+        cmd = "cat %s'A' | { cat; echo --; cat <&3; } 3%s'B' > hd\n%s" % (op1, op2, docs)
+    block = SETUP + "x=XV\nfdprobe --names --max 12 -t B.{i}\n" + cmd + "echo \"@r.{i} $?\"\nfdprobe --names --max 12 -t P.{i}\ndumpf {i} hd hd2"
+    e1 = "".join((l.lstrip("\t") if d1 else l) + "\n" for l in b1)
+    e2 = "".join((l.lstrip("\t") if d2 else l) + "\n" for l in b2)
+    return {"block": block, "kind": "heredoc", "ctx": "pair:" + form, "delim": "A/B", "dash": d1, "body": b1 + b2, "expect_hd": (e1 + "--\n" + e2).encode(),
+            "carrier": "heredoc:pair:" + form, "rlist": [op1 + "A", op2 + "B"], "rlist2": None, "noclobber": False}
+
+
 # ---- judging ---------------------------------------------------------------------------------------------------
 
 def norm_obs(obs):
@@ -267,6 +291,8 @@ def run(run):
         cases.append(heredoc_case(random.Random(rng.getrandbits(64))))
     for _ in range(int((250 if quick else 6000) * scale)):
         cases.append(herestring_case(random.Random(rng.getrandbits(64))))
+    for _ in range(int((200 if quick else 5000) * scale)):
+        cases.append(heredoc_pair_case(random.Random(rng.getrandbits(64))))
     run.count("cases", len(cases))
 
     def on_agree(c, b):
